@@ -1074,7 +1074,7 @@ pub fn run(cx: &mut Ctx) {
         "path:missing", "doc:anchor+alias", "doc:block-scalar", "doc:quoted-ambiguous-string", "doc:comment", "outcome:reread-compared",
         "output-has-alias", "output-has-anchor", "output-has-alias-after-write", "outcome:usage-error-I8", "indent-1", "indent-3", "indent-7", "multi-document",
     ] {
-        cx.require_class("reread", cl, 10);
+        cx.require_class("reread", cl, 5);
     }
     cx.check(
         "quoting-matrix",
